@@ -26,7 +26,7 @@
 (*   "idle" - the real (nest_asyncio-patched) loop: callbacks run in batches (_run_once),          *)
 (*            execute() inside a step opens an inner run whose batches run the other ready         *)
 (*            handles, and the environment is a driver task that acts whenever it finds the ready  *)
-(*            queue otherwise empty.                                                               *)
+(*            queue otherwise empty (and no inner run about to return).                            *)
 (***************************************************************************************************)
 EXTENDS Naturals, Sequences, FiniteSets, TLC
 
@@ -243,7 +243,9 @@ Normalise(s) ==
                     IN Normalise(Close(Go(s2, L.caller), s.procs[L.caller].task))
                ELSE [s EXCEPT !.lv[n].rem = Len(s.ready)]
 
-Idle(s) == Mode(s) = "idle" /\ s.ready = <<s.drv>>      \* the driver is the only ready handle
+\* the driver is the only ready handle and no inner run is about to return: nothing moves unless the environment acts
+Idle(s) == /\ Mode(s) = "idle" /\ s.ready = <<s.drv>>
+           /\ \A i \in 2..Len(s.lv) : s.procs[s.lv[i].wait].st \notin Terminal
 
 (* ----------------------------------------------------------------------------------------------- *)
 (* environment requests (public calls)                                                             *)
@@ -312,7 +314,8 @@ Init0(k) ==
              futs |-> [f \in 1..sc.nfut |-> "pending"],
              lv |-> <<>>, drv |-> 0,
              kctl |-> [i \in 1..n |-> sc.procs[i].ctl], ksoon |-> sc.soon,
-             log |-> <<>>, bad |-> {}]
+             log |-> <<>>, bad |-> {},
+             act |-> <<"init", 0>>]                                 \* the action that led here (read by the replay)
       s1 == StartTop(s0, 1)
   IN IF sc.mode = "any" THEN s1
      ELSE \* the driver task is created last; the outermost run_until_complete starts its first batch
@@ -331,7 +334,7 @@ RunHandle ==
   /\ S.ready # <<>>
   /\ ~Idle(S)
   /\ LET t  == Head(S.ready)
-         s0 == [S EXCEPT !.ready = Tail(@)]
+         s0 == [S EXCEPT !.ready = Tail(@), !.act = <<"run", t>>]
      IN IF Mode(S) = "any" THEN S' = RunTask(s0, t)
         ELSE LET s1 == [s0 EXCEPT !.lv[Len(S.lv)].rem = @ - 1]
              IN IF t = S.drv THEN S' = Normalise([s1 EXCEPT !.ready = Append(@, t)])     \* not idle: await asyncio.sleep(0)
@@ -339,20 +342,20 @@ RunHandle ==
 
 \* a request of the environment: from the main context between two callbacks ("any"), or from the driver task when
 \* it finds the loop idle ("idle")
-Env(Op(_)) ==
-  IF Mode(S) = "any" THEN S' = Op(S)
+Env(Op(_), name, arg) ==
+  IF Mode(S) = "any" THEN S' = Op([S EXCEPT !.act = <<name, arg>>])
   ELSE /\ Idle(S)
-       /\ LET s0 == [S EXCEPT !.ready = <<>>, !.lv[Len(S.lv)].rem = @ - 1, !.cur = Append(@, 2)]
+       /\ LET s0 == [S EXCEPT !.ready = <<>>, !.lv[Len(S.lv)].rem = @ - 1, !.cur = Append(@, 2), !.act = <<name, arg>>]
               s1 == Op(s0)
           IN S' = Normalise([s1 EXCEPT !.cur = Front(@), !.ready = Append(@, S.drv)])
 
 Procs == 1..Len(S.procs)
-EnvComplete(f) == CanComplete(S, f) /\ Env(LAMBDA s : Complete(s, f))
-EnvKill(p)     == Ctl(S, p, "kill") /\ Env(LAMBDA s : Kill(s, p))
-EnvPause(p)    == Ctl(S, p, "pause") /\ Env(LAMBDA s : Pause(s, p))
-EnvPlay(p)     == CanPlay(S, p) /\ Env(LAMBDA s : Play(s, p))
-EnvResume(p)   == CanResume(S, p) /\ Env(LAMBDA s : Resume(s, p))
-EnvCallSoon(p) == CanSoon(S, p) /\ Env(LAMBDA s : CallSoon(s, p))
+EnvComplete(f) == CanComplete(S, f) /\ Env(LAMBDA s : Complete(s, f), "complete", f)
+EnvKill(p)     == Ctl(S, p, "kill") /\ Env(LAMBDA s : Kill(s, p), "kill", p)
+EnvPause(p)    == Ctl(S, p, "pause") /\ Env(LAMBDA s : Pause(s, p), "pause", p)
+EnvPlay(p)     == CanPlay(S, p) /\ Env(LAMBDA s : Play(s, p), "play", p)
+EnvResume(p)   == CanResume(S, p) /\ Env(LAMBDA s : Resume(s, p), "resume", p)
+EnvCallSoon(p) == CanSoon(S, p) /\ Env(LAMBDA s : CallSoon(s, p), "callsoon", p)
 
 Next ==
   \/ RunHandle
